@@ -416,6 +416,43 @@ def stage_3(x=None, y=None):
   return _r.rec('stage_3', locals())
 
 
+def _raw_recorder(name):
+  """Decorator: the wrapped function's signature stays visible (functools.wraps), the result
+  records the RAW call - which arguments were actually passed, positionally or by keyword."""
+
+  def deco(fn):
+    @functools.wraps(fn)
+    def wrapper(*args, **kwargs):
+      fn(*args, **kwargs)       # must be a valid call
+      return _r.rec(name, {'raw_args': args, 'raw_kwargs': kwargs})
+    return wrapper
+
+  return deco
+
+
+@_raw_recorder('raw_po')
+def raw_po(x, factor=2.0, offset=None, /):
+  pass
+
+
+@_raw_recorder('raw_mixed')
+def raw_mixed(x, factor=2.0, /, y='Y', *, k=3):
+  pass
+
+
+@_raw_recorder('raw_va')
+def raw_va(x=0, factor=2.0, /, *va, k=3):
+  pass
+
+
+class PointSub(Point):
+  """A class derived from a named tuple (the `class Spec(namedtuple(...))` idiom)."""
+  __slots__ = ()
+
+  def norm(self):
+    return 0
+
+
 def two(x=None, y=None):
   return _r.rec('two', locals())
 
